@@ -529,6 +529,9 @@ def m_fetch_sub(x, r, a, e):
 def m_extend_from_slice(x, r, a, e):
     r = x.deref(r)
     src = x.deref(a[0])
+    if type(src).__name__ == 'SmallBytes':
+        r.chunks.append(src)          # serialised map copied into an aligned buffer stays one opaque object
+        return UNIT
     if isinstance(r, Buffer):
         r.chunks.extend(src.chunks)
     elif isinstance(src, Buffer) and not r.items:
